@@ -640,7 +640,8 @@ struct timespec* sentTime) {
       if (!m_repeat) {
         m_repeat = true;
         m_response.clear();
-        return setState(bs_recvRes, RESULT_ERR_NAK, true);
+        setState(bs_recvRes, RESULT_ERR_NAK, true);
+        return result;  // continue with already buffered symbols of the repeated response
       }
       return setState(bs_sendSyn, RESULT_ERR_ACK);
     }
